@@ -58,7 +58,6 @@ theorem valueReference_map (S : List UModule) (n : String) :
 /-- what `Asn::try_resolve` looks at in a found definition -/
 def viewD (r : FR (Option UDefinition)) : EnumView :=
   match r with
-  | .error .fuel => .diverges
   | .ok (some d) =>
     match d.ty with
     | .enumerated e => .enumerated e
@@ -93,7 +92,7 @@ theorem enumView_eq_viewD (sc : Scope) (n : String) :
     sc.enumView n = viewD (sc.definition n) := by
   simp only [Scope.enumView, Scope.resolveTypeRef, viewD]
   cases h : sc.definition n with
-  | error e => cases e <;> rfl
+  | error e => rfl
   | ok o =>
     cases o with
     | none => rfl
@@ -118,11 +117,11 @@ theorem scopeEquiv_substAll (m : UModule) (S : List UModule) :
 /-- **subst** for one module of `try_resolve_all`: all loaded modules replaced by their literal
     variants -/
 theorem tryResolve_substAll (m : UModule) (S : List UModule) (ha : Agrees ⟨m, S⟩ (τ m))
-    (h64 : SigmaI64 (τ m)) (hs : SafeModule ⟨m, S⟩ (τ m) m) :
+    (hs : SafeModule ⟨m, S⟩ (τ m) m) :
     Scope.tryResolve ⟨substAllWith τ m, S.map (substAllWith τ)⟩ = Scope.tryResolve ⟨m, S⟩ := by
   have heq := scopeEquiv_substAll τ m S
-  have h1 := resolveValueRefs_subst ⟨m, S⟩ _ (τ m) heq ha h64 m.valueReferences hs.1
-  have h2 := resolveDefinitions_subst ⟨m, S⟩ _ (τ m) heq ha h64 m.definitions hs.2
+  have h1 := resolveValueRefs_subst ⟨m, S⟩ _ (τ m) heq ha m.valueReferences hs.1
+  have h2 := resolveDefinitions_subst ⟨m, S⟩ _ (τ m) heq ha m.definitions hs.2
   simp only [Scope.tryResolve]
   have e1 : (substAllWith τ m).valueReferences = m.valueReferences.map (substVR (τ m)) := rfl
   have e2 : (substAllWith τ m).definitions = m.definitions.map (substDef (τ m)) := rfl
@@ -130,7 +129,7 @@ theorem tryResolve_substAll (m : UModule) (S : List UModule) (ha : Agrees ⟨m, 
   rfl
 
 theorem resolveAllAux_substAll (S : List UModule)
-    (hall : ∀ m ∈ S, Agrees ⟨m, S⟩ (τ m) ∧ SigmaI64 (τ m) ∧ SafeModule ⟨m, S⟩ (τ m) m) :
+    (hall : ∀ m ∈ S, Agrees ⟨m, S⟩ (τ m) ∧ SafeModule ⟨m, S⟩ (τ m) m) :
     ∀ L : List UModule, (∀ m ∈ L, m ∈ S) →
       resolveAllAux (S.map (substAllWith τ)) (L.map (substAllWith τ)) = resolveAllAux S L := by
   intro L
@@ -138,13 +137,13 @@ theorem resolveAllAux_substAll (S : List UModule)
   | nil => intro _; rfl
   | cons m tl ih =>
     intro hL
-    obtain ⟨ha, h64, hs⟩ := hall m (hL m (by simp))
-    simp only [List.map_cons, resolveAllAux, tryResolve_substAll τ m S ha h64 hs,
+    obtain ⟨ha, hs⟩ := hall m (hL m (by simp))
+    simp only [List.map_cons, resolveAllAux, tryResolve_substAll τ m S ha hs,
       ih (fun x hx => hL x (by simp [hx]))]
 
 /-- **subst** for `MultiModuleResolver::try_resolve_all` -/
 theorem tryResolveAll_substAll (S : List UModule)
-    (hall : ∀ m ∈ S, Agrees ⟨m, S⟩ (τ m) ∧ SigmaI64 (τ m) ∧ SafeModule ⟨m, S⟩ (τ m) m) :
+    (hall : ∀ m ∈ S, Agrees ⟨m, S⟩ (τ m) ∧ SafeModule ⟨m, S⟩ (τ m) m) :
     tryResolveAll (S.map (substAllWith τ)) = tryResolveAll S :=
   resolveAllAux_substAll τ S hall S (fun _ h => h)
 
